@@ -73,7 +73,7 @@ _hist_rule = ('cases: random histories (4-40 ops) over one Number (finite test n
               'the end), push iterators All/Values/Backward stopped after k items, AsString, v1 NumDigits; versions rotate. Non-trivial: the history '
               'contains pulls, runs, limits, starts or backward traversals; distinct = distinct (version, args).')
 PROPS['C04'] = dict(
-    theorem='C04_at, C04_scan, C04_pulls, C04_history_independent, C04_v3_iterator, C04_limit_at, C04_first_n, C04_limit_iterator, C04_full_iterator, C04_listing_consecutive (Properties/C04.v)',
+    theorem='C04_at, C04_scan, C04_pulls, C04_history_independent, C04_v3_iterator, C04_limit_at, C04_first_n, C04_limit_iterator, C04_full_iterator, C04_listing_consecutive, C04_scan_is_model, C04_at_is_model, C04_full_iterator_of_number, C04_full_iterator_of_limited_number, C04_limited_iterator_pulls (Properties/C04.v)',
     functional=True,
     level_text='Theorems for every digit string D, every oracle for memoizer.wait satisfying the wait contract (so every block size, timing and '
                'interleaving) and every history: At = D[i]; Scan/ScanValues with early exit = the first k positions of [idx, limit); any sequence of '
@@ -86,7 +86,7 @@ PROPS['C04'] = dict(
     rule=_hist_rule, modelled='memoizer.wait as an oracle constrained by WaitOK', assumptions=[],
 )
 PROPS['C07'] = dict(
-    theorem='C07_interval, C07_order_free, C07_significant_zero, C07_significant_keeps_exponent, C07_view_at, C07_view_scan, C07_view_all_len (Properties/C07.v)',
+    theorem='C07_interval, C07_order_free, C07_significant_zero, C07_significant_keeps_exponent, C07_view_at, C07_view_scan, C07_view_all_len, C07_view_backward_is_reverse (Properties/C07.v)',
     functional=True,
     level_text='Theorem for every chain (any length, any integer arguments) on every well-formed value of the v3 representation (which contains the v1/v2 '
                'representation as its FN/MWS fragment): the positions of the result are exactly those of the receiver that satisfy all starts and all ends, '
@@ -142,7 +142,7 @@ PROPS['C12'] = dict(
 )
 
 PROPS['C08'] = dict(
-    theorem='C08_shape, C08_value, C08_g_rule, C08_width, C08_bad_verb, C08_string_is_g (Properties/C08.v)',
+    theorem='C08_shape, C08_value, C08_g_rule, C08_width, C08_bad_verb, C08_string_is_g, C08_sci_form (Properties/C08.v)',
     functional=True,
     level_text='Theorems for every precision/exponent/digit list: the streaming formatter emits exactly the first sigDigits digits (zero padded where the verb demands an exact '
                'count) with the point after `exponent` digits (0.000ddd form for exponents <= 0), and the text parsed back as a decimal is exactly the number truncated toward zero; '
@@ -192,7 +192,7 @@ PROPS['C06'] = dict(
 )
 
 PROPS['C15'] = dict(
-    theorem='C15_first_n_stable, C15_find_first_stable, C15_finite_terminates, C15_consulted (Properties/C15.v)',
+    theorem='C15_first_n_stable, C15_find_first_stable, C15_finite_terminates, C15_consulted, C15_stops_at_nth_match (Properties/C15.v)',
     functional=True,
     level_text='Theorems: the first n matches of a text are those of any prefix that already contains them (extending the text cannot change them), so a search that returns at the '
                'n-th match needs no digit beyond its end; every search on a finite text returns; digits consulted <= largest waited index + B in every schedule. The statement is '
@@ -232,7 +232,7 @@ def _race_stage(prop, tier, seed, workdir, env, root, build, repo, **kw):
     return {'violations': viol, 'coverage': {'race_detector_cases': sum(out)}, 'notes': ['-race stress: %d cases, %d reports' % (sum(out), len(viol))]}
 
 PROPS['C05'] = dict(
-    theorem='C05_invariant, C05_return_contract, C05_deadlock_free, C05_can_complete, C05_internal_runs_bounded, C05_maximal_schedules_return_every_call, C05_reach_support, C05_acceptor_sound, C05_sequential_answers (Properties/C05.v)',
+    theorem='C05_invariant, C05_return_contract, C05_deadlock_free, C05_can_complete, C05_internal_runs_bounded, C05_maximal_schedules_return_every_call, C05_reach_support, C05_wait_contract, C05_digit_string_closed, C05_acceptor_sound, C05_sequential_answers (Properties/C05.v)',
     functional=True,
     level_text='Theorems over the memoizer as a transition system with one producer and any number of readers issuing any wait calls, for every interleaving: lock discipline '
                '(every access to data/maxLength/done by the lock holder), parked threads\' wake-up conditions are false (no lost wake-up), every return satisfies the wait contract '
